@@ -11,6 +11,13 @@ Line-protocol operations of the discharge-client model (C20; driver only).
   resp:  (fail) (redir x<loc>) (acc) (json x<error> x<discharge> x<poll_url>)
          (jsonui x<error> x<discharge> x<poll_url> x<ui poll_url> x<ui user_url>)
 
+The discharge member of a scripted answer is written at alias level and read the way
+`Bundle.AddTokens` (`parseToks`) reads the real string: blanks trimmed, one leading `FlyV1 ` /
+`Bearer ` scheme removed, split at `,`, each part trimmed; a part starting with `!` stands for a
+token with a macaroon label and an undecodable body, which makes `AddTokens` refuse the whole
+string (`addTokens`).  A flow is printed `dis` when its third party's string was accepted and
+appended (what the Go side can observe in the returned header).
+
 Every URL string of a line is screened first: not valid UTF-8, or a `%` in the authority
 zone (`pctInAuthorityZone`) → the whole line is `unmodelled`; the Go harness screens the same way.
 -/
@@ -133,11 +140,36 @@ def headerCanon (nKept : Nat) (h : Str) : String :=
   let toks := if body.isEmpty then [] else (splitOn ',' body).map String.ofList
   s!"hdr:{flag}:" ++ ",".intercalate (toks.take nKept) ++ "|" ++ ",".intercalate (sortStrs (toks.drop nKept))
 
+def trimBlanks (s : Str) : Str :=
+  ((s.dropWhile (· == ' ')).reverse.dropWhile (· == ' ')).reverse
+
+/-- `strings.EqualFold` on ASCII -/
+def eqFold (a b : Str) : Bool := a.map Char.toLower == b.map Char.toLower
+
+/-- `macaroon.StripAuthorizationScheme` (recursive on the rest) on an alias-level string -/
+def stripScheme (fuel : Nat) (s : Str) : Str :=
+  let s := trimBlanks s
+  match fuel with
+  | 0 => s
+  | fuel + 1 =>
+    match cut ' ' s with
+    | (pfx, some rest) =>
+      if eqFold pfx "bearer".toList || eqFold pfx "flyv1".toList then stripScheme fuel rest else s
+    | (_, none) => s
+
+/-- `Bundle.AddTokens` on the alias-level string: the tokens it appends, `none` when it refuses -/
+def addTokens (d : Str) : Option (List Str) :=
+  let parts := (splitOn ',' (stripScheme 4 d)).map trimBlanks
+  if parts.any (fun p => p.head? == some '!') then none else some parts
+
 def cfgTail (cfg : Cfg) (anyRequest : Bool) : String :=
   if anyRequest then s!" via:{rtStr (innerUsed cfg)} client:{fieldsStr cfg.fields}" else " via:- client:-"
 
 def flowStr (f : FlowResult) : String :=
-  let o := match f.outcome with | .discharge _ => "dis" | .failed => "failed" | .unmodelled => "unmodelled"
+  let o := match f.outcome with
+    | .discharge d => if (addTokens d).isSome then "dis" else "failed"
+    | .failed => "failed"
+    | .unmodelled => "unmodelled"
   s!"f{f.ticket}:{o}[" ++ ";".intercalate (f.sent.map sentStr) ++ "]"
 
 def insertFlow (x : FlowResult) : List FlowResult → List FlowResult
@@ -193,7 +225,7 @@ def evalOpClient : Sx → Option String
           match ts.find? (fun t => t.loc == loc && t.n == n) with
           | some t => t.script
           | none => []
-        let res := fetch roundTripMutates cfg stripped kept (groupTickets ts) (fun d => some [d]) script
+        let res := fetch roundTripMutates cfg stripped kept (groupTickets ts) addTokens script
         if res.flows.any (fun f => f.outcome == .unmodelled) then some "unmodelled"
         else
           let flows := res.flows.foldl (fun acc f => insertFlow f acc) []
